@@ -26,14 +26,17 @@ FUNCS = ["state.ExecutionState.create_checkpoint", "state.ExecutionState.checkpo
 SYNC_PATTERNS = [[True, True], [False, True], [True, False]]
 
 
-def _mk_w1(pto):
-    def lem(sp: int, paged: bool, max_bytes: int, pstep: int, fail_at: int):
+def _mk_w1(pto, pto2=None):
+    def lem(sp: int, paged: bool, max_bytes: int, pstep: int, fail_at: int, pstep2: int):
         """
-        pre: 0 <= sp < 3 and 1 <= max_bytes <= 2 and 1 <= pstep <= 30 and 0 <= fail_at <= 2
+        pre: 0 <= sp < 3 and 1 <= max_bytes <= 2 and 1 <= pstep <= 30 and 0 <= fail_at <= 2 and pstep < pstep2 <= 31
         post: True
         """
+        if pto2 is None and pstep2 != pstep + 1:
+            return   # single-preemption lemma: the second step number is unused
         syncs = SYNC_PATTERNS[sp]
-        w = World(max_bytes, 2, 0.2, Client(fail_at=fail_at if fail_at > 0 else -1, page_split=paged), pre_step=[pstep], pre_to=[pto])
+        w = World(max_bytes, 2, 0.2, Client(fail_at=fail_at if fail_at > 0 else -1, page_split=paged),
+                  pre_step=[pstep] if pto2 is None else [pstep, pstep2], pre_to=[pto] if pto2 is None else [pto, pto2])
         seen = {}
 
         def producer(i):
@@ -54,7 +57,7 @@ def _mk_w1(pto):
         for i in range(2):
             producer(i)
         w.run()
-        if w.sched.k == 1:
+        if w.sched.k == (1 if pto2 is None else 2):
             h.reach("preempted")
         for i in range(2):
             h.check(i in seen, "caller blocked forever")
@@ -67,7 +70,12 @@ def _mk_w1(pto):
                         "waiter released (event set without error) before the update was applied and its response merged")
         h.end()
 
-    lem.__name__ = lem.__qualname__ = f"w1_sync_after_apply_to{pto}"
+    lem.__name__ = lem.__qualname__ = f"w1_sync_after_apply_to{pto}" + ("" if pto2 is None else f"_then{pto2}")
+    names = ['consumer', 'producer 0', 'producer 1']
+    if pto2 is not None:
+        return h.lemma(timeout=2400, thorough_timeout=2400, funcs=FUNCS, reach=("end", "preempted", "sync_ok"), tier="thorough",
+                       bounds="as w1_sync_after_apply_to*, with TWO preemptions at yield points s1 < s2 <= 31 switching to "
+                              f"{names[pto]} and then to {names[pto2]}")(lem)
     return h.lemma(timeout=300, thorough_timeout=900, funcs=FUNCS, reach=("end", "preempted", "sync_ok"),
                    bounds="2 updates of size 1 (max_bytes 1: two calls / 2: one call), 3 sync patterns, response inline or paginated (records on a second page), "
                           "API call #1 or #2 failing or none, window 0.2 s; ONE preemption at any of the first 30 yield points switching to thread "
@@ -77,7 +85,10 @@ def _mk_w1(pto):
 for _p in range(3):
     _f = _mk_w1(_p)
     globals()[_f.__name__] = _f
-del _f, _p
+    for _q in range(3):
+        _f = _mk_w1(_p, _q)
+        globals()[_f.__name__] = _f
+del _f, _p, _q
 
 
 # ---------------------------------------------------------------------------------------- W2: handlers
